@@ -69,7 +69,24 @@ TestReporter *create_xml_reporter(const char *prefix) {
 }
 
 static int file_stack_p = 0;
-static FILE *file_stack[100];
+static FILE *first_file_stack[100];
+static FILE **file_stack = first_file_stack;
+static int file_stack_size = 100;
+
+static void push_file(FILE *file) {
+    if (file_stack_p == file_stack_size) {
+        /* deeper nesting than the static stack has room for, continue on the heap */
+        FILE **larger = (FILE **)malloc(sizeof(FILE *) * file_stack_size * 2);
+        if (larger == NULL)
+            PANIC("Out of memory for nested suites");
+        memcpy(larger, file_stack, sizeof(FILE *) * file_stack_size);
+        if (file_stack != first_file_stack)
+            free(file_stack);
+        file_stack = larger;
+        file_stack_size *= 2;
+    }
+    file_stack[file_stack_p++] = file;
+}
 
 static char *indent(TestReporter *reporter) {
     static char buffer[1000];
@@ -142,7 +159,7 @@ static void xml_reporter_start_suite(TestReporter *reporter, const char *suitena
     } else
         out = stdout;
 
-    file_stack[file_stack_p++] = out;
+    push_file(out);
     memo->printer(out, "<?xml version=\"1.0\" encoding=\"ISO-8859-1\" ?>\n");
     memo->printer(out, indent(reporter));
     memo->printer(out, "<testsuite name=\"%s\">\n", suite_path);
